@@ -60,8 +60,6 @@ PLAN = dict(
     tv=[
         dict(glob="own-*.ndjson", module="Trace_Ownership", cfg="Trace_Ownership.cfg", stateful=True, reset_ops=["reset"],
              timeout_thorough=5400, corrupt=["hs", "rcs", "views", "vviews", "nviews", "relc", "pool", "ok"]),
-        dict(glob="ownkf-*.ndjson", module="Trace_Ownership", cfg="Trace_Ownership.cfg", stateful=True, reset_ops=["reset"],
-             timeout_thorough=5400, corrupt=["rcs", "pool"]),
     ],
     extra_steps=[gen_and_validate],
     level_text="TLC exhaustively model-checks the ownership state machine (Ownership.tla: regions with standard / Vec / custom "
